@@ -51,10 +51,13 @@ TypeTokens(t, asp) ==
     [] t.k = "m" -> << "map", "[", t.key, "," >> \o TypeTokens(t.v, asp) \o << "]" >>
 
 Quote(s) == "\"" \o s \o "\""
+\* dep = "" : not deprecated; otherwise the deprecation message - EmptyDep stands for the empty message, [deprecated("")]
+EmptyDep == "@EMPTY"
+DepMsg(dep) == IF dep = EmptyDep THEN "" ELSE dep
 \* after an attribute the layout may leave the line, or (when no documentation is pending, which an empty
 \* line would detach) an empty line: SA
 DepTokens(dep, bare) == IF dep = "" THEN <<>>
-                        ELSE << "[", "deprecated", "(", Quote(dep), ")", "]", IF bare THEN SA ELSE SL >>
+                        ELSE << "[", "deprecated", "(", Quote(DepMsg(dep)), ")", "]", IF bare THEN SA ELSE SL >>
 TagTokens(tags) == FlattenSeq([i \in 1..Len(tags) |-> << NL, "//[tag(" \o tags[i].text \o ")]", NL >>])
 TrailTokens(f) == IF f.trail = "" THEN <<>> ELSE << "//" \o f.trail, NL >>
 
@@ -113,7 +116,7 @@ JoinDoc(doc) == IF doc = <<>> THEN ""
 \* a field's comment also lists its tag comments (they are line comments)
 FieldDoc(f) == JoinDoc(f.doc \o [i \in 1..Len(f.tags) |-> [style |-> "line", text |-> "[tag(" \o f.tags[i].text \o ")]"]])
 
-FieldOf(f) == [name |-> f.name, t |-> f.t, idx |-> f.idx, dep |-> f.dep # "", depmsg |-> f.dep,
+FieldOf(f) == [name |-> f.name, t |-> f.t, idx |-> f.idx, dep |-> f.dep # "", depmsg |-> DepMsg(f.dep),
                doc |-> FieldDoc(f), tags |-> [i \in 1..Len(f.tags) |-> f.tags[i].tag]]
 
 SortByIdx(s) == SortSeq(s, LAMBDA a, b : a.idx < b.idx)
@@ -134,14 +137,14 @@ DefOfX(d, asis) ==
                            fields |-> SortByIdx([i \in 1..Len(d.fields) |-> FieldOf(d.fields[i])])]
     [] d.k = "union" -> [kind |-> "union", name |-> d.name, opcode |-> d.opval, doc |-> JoinDoc(d.doc),
                          branches |-> SortByIdx([i \in 1..Len(d.branches) |->
-                            [idx |-> d.branches[i].idx, dep |-> d.branches[i].dep # "", depmsg |-> d.branches[i].dep,
+                            [idx |-> d.branches[i].idx, dep |-> d.branches[i].dep # "", depmsg |-> DepMsg(d.branches[i].dep),
                              def |-> DefOfX([d.branches[i].def EXCEPT !.doc = IF asis /\ i > 1 THEN EatenDoc(d.branches[i].doc)
                                                                                  ELSE d.branches[i].doc], asis)]])]
     [] d.k = "enum" -> [kind |-> "enum", name |-> d.name, base |-> IF d.base = "" THEN "uint32" ELSE d.base,
                         unsigned |-> d.base \notin {"int16", "int32", "int64"}, doc |-> JoinDoc(d.doc),
                         options |-> [i \in 1..Len(d.members) |->
                             [name |-> d.members[i].name, val |-> d.members[i].val, dep |-> d.members[i].dep # "",
-                             depmsg |-> d.members[i].dep, doc |-> JoinDoc(d.members[i].doc)]]]
+                             depmsg |-> DepMsg(d.members[i].dep), doc |-> JoinDoc(d.members[i].doc)]]]
     [] d.k = "const" -> [kind |-> "const", t |-> d.t, name |-> d.name, value |-> d.lit, doc |-> JoinDoc(d.doc)]
 
 Sel(items, kind, asis) == LET s == SelectSeq(items, LAMBDA d : d.k = kind) IN [i \in 1..Len(s) |-> DefOfX(s[i], asis)]
